@@ -133,10 +133,19 @@ def rule_inventory(ctx: Ctx):
             continue
         for d in fn.node.decorator_list:
             dn = show(d.func) if isinstance(d, ast.Call) else show(d)
-            if dn.split(".")[-1] in ("lru_cache", "cache", "cached_property") and dn.split(".")[-1] != "cached_property":
+            if dn.split(".")[-1] in ("lru_cache", "cache"):
                 key = f"{fn.module.rel}::{fn.qualname}@{dn.split('.')[-1]}"
                 inventory.append(key)
-                written.setdefault(key, []).append((fn, d))
+                # a memo is harmless for a pure function of values; it is shared state when the result depends on the
+                # (mutable) state of an argument object, or is itself a mutable container handed to every caller
+                params = set(fn.params)
+                reads = [n for n in own_nodes(fn.node) if
+                         (isinstance(n, ast.Attribute) and isinstance(n.value, ast.Name) and n.value.id in params and isinstance(n.ctx, ast.Load)) or
+                         (isinstance(n, ast.Call) and isinstance(n.func, ast.Name) and n.func.id in ("dir", "getattr", "vars", "hasattr", "id", "type", "iter", "len")
+                          and any(isinstance(a, ast.Name) and a.id in params for a in n.args))]
+                rets = [n for n in own_nodes(fn.node) if isinstance(n, ast.Return) and n.value is not None and _is_mutable_value(n.value)]
+                if reads or rets:
+                    written.setdefault(key, []).append((fn, (reads + rets)[0]))
     # closure-level objects (a mutable created in an outer function and captured by an inner one)
     for fn in ctx.p.all_functions():
         inner = [f for f in fn.module.all_functions if f.parent is fn]
